@@ -21,6 +21,11 @@ type Scenario struct {
 	HoldMs     int           // how long after shutdown.call the controller logs "release" (frees held handlers)
 	Misuse     []Misuse      // start/stop misuse operations
 	MaxTCP     int           // Server.MaxTCPQueries: -1 (unlimited), 0 (default 128), 1, 2, 128
+	// transient faults of the accept / datagram-read step (in-memory transports and the wrapped
+	// loopback listener): errors that are Temporary() - with or without Timeout() - must be
+	// retried by the serve loop, the service goes on as if nothing had happened
+	TempErrs  []string // kinds (tempNotTimeout | tempTimeout) queued before the server starts
+	TempErrAt string   // one more tempNotTimeout error is injected when this event is logged ("" = none)
 	Waits      []memnet.Wait // interposition plan
 }
 
@@ -137,7 +142,7 @@ func (s Scenario) reachable() []string {
 
 // failedStartKinds: ways in which a start fails before (or, closedListener, right after) the server
 // begins to serve. Afterwards Shutdown must return at once and the same Server value must start.
-var failedStartKinds = []string{"closedUDP", "closedUDP", "closedListener", "closedPacketConn", "closedMemListener", "nilListeners", "badAddrTCP", "badAddrUDP", "badNet", "portInUseTCP", "portInUseUDP", "tlsNoCert"}
+var failedStartKinds = []string{"closedUDP", "closedUDP", "closedListener", "closedPacketConn", "closedMemListener", "permanentAcceptErr", "permanentReadErr", "timeoutNotTemporaryAccept", "timeoutNotTemporaryRead", "nilListeners", "badAddrTCP", "badAddrUDP", "badNet", "portInUseTCP", "portInUseUDP", "tlsNoCert"}
 
 var transportsMem = []string{"memTCP", "memTCP", "memTCP", "memTLS", "memPacket", "memPacket", "memPacket"}
 var transportsReal = []string{"realUDP", "realTCP"}
@@ -149,6 +154,11 @@ func genScenario(t *rapid.T, transports []string) Scenario {
 	var s Scenario
 	s.Transport = rapid.SampledFrom(transports).Draw(t, "transport")
 	s.MaxTCP = rapid.SampledFrom([]int{-1, -1, -1, 0, 0, 1, 2, 128}).Draw(t, "maxTCP")
+	if s.Transport != "realUDP" {
+		for i, n := 0, rapid.SampledFrom([]int{0, 0, 0, 1, 2, 3}).Draw(t, "tempErrs"); i < n; i++ {
+			s.TempErrs = append(s.TempErrs, rapid.SampledFrom([]string{"tempNotTimeout", "tempNotTimeout", "tempTimeout"}).Draw(t, "tempErrKind"))
+		}
+	}
 	nc := rapid.SampledFrom([]int{0, 1, 1, 1, 2, 2, 3, 4}).Draw(t, "clients")
 	postEvents := []string{"release", "release", "release", "shutdown.call"}
 	if s.stream() && s.spied() {
@@ -201,6 +211,9 @@ func genScenario(t *rapid.T, transports []string) Scenario {
 		}
 	}
 	reach := s.reachable()
+	if s.Transport != "realUDP" && rapid.IntRange(0, 4).Draw(t, "tempErrLate") == 0 {
+		s.TempErrAt = rapid.SampledFrom(reach).Draw(t, "tempErrAt")
+	}
 	// trigger
 	s.Trigger = rapid.SampledFrom(reach).Draw(t, "trigger")
 	if rapid.IntRange(0, 3).Draw(t, "triggerLate") == 0 {
